@@ -134,6 +134,34 @@ def merge_runs(r, s, prefix="small:"):
                 nontrivial=r["nontrivial"] + s["nontrivial"], samples=r["samples"][:2] + s["samples"][:2])
 
 
+def add_big(ctx, r, n, steps=34, seed_off=7777):
+    """also run the `big` profile (bulk-built graphs of 15-45 nodes with tie-heavy keys; ordered searches cut inside large results,
+    path searches whose conditions fail on some elements, traversal-stopping conditions chained with or) and merge into r"""
+    b = run_db(ctx, "big", n, steps, sub="db_big", seed_off=seed_off)
+    out = dict(r)
+    out["cases"] = r["cases"] + b["cases"]
+    out["histories"] = r["histories"] + b["histories"]
+    out["nontrivial"] = r["nontrivial"] + b["nontrivial"]
+    out["disagreements"] = r["disagreements"] + b["disagreements"]
+    out["failures"] = r["failures"] + b["failures"]
+    out["samples"] = (r["samples"] + b["samples"])[:4]
+    d = dict(r["dist"])
+    for k, v in b["dist"].items():
+        d["big:" + k] = v
+    out["dist"] = d
+    return out
+
+
+def spec_level(r):
+    """The database model is the proved specification of these properties: a search / query result of the implementation that
+    differs from the model's IS a violation of the property with the history as failing input (DESIGN 2.2, spec-level)."""
+    fs = list(r["failures"])
+    for d in r["disagreements"]:
+        fs.append(dict(cls="model-mismatch", what="result differs from the proved model: step=%s model=%s impl=%s history=%s"
+                       % (d.get("case", "")[:1500], d.get("model", "")[:800], d.get("impl", "")[:800], " ;; ".join(d.get("history", []))[:6000])))
+    return fs
+
+
 if __name__ == "__main__":
     class C: pass
     c = C(); c.seed = int(sys.argv[2]) if len(sys.argv) > 2 else 1
